@@ -36,11 +36,13 @@ namespace fd = fcppt::math::dim;
 using i8 = std::int8_t;
 using u8 = std::uint8_t;
 using i16 = std::int16_t;
+using u16 = std::uint16_t; // only as the left operand of (op) int: u16 (op) u16 promotes to int and overflows
 
 template <class T> struct sname;
 template <> struct sname<i8> { static constexpr char const *v = "i8"; };
 template <> struct sname<u8> { static constexpr char const *v = "u8"; };
 template <> struct sname<i16> { static constexpr char const *v = "i16"; };
+template <> struct sname<u16> { static constexpr char const *v = "u16"; };
 template <> struct sname<int> { static constexpr char const *v = "int"; };
 template <> struct sname<long> { static constexpr char const *v = "long"; };
 
@@ -49,6 +51,7 @@ template <class T> std::vector<long> vals(bool reduced = false);
 template <> inline std::vector<long> vals<i8>(bool reduced) { return reduced ? std::vector<long>{-128, -1, 0, 127} : std::vector<long>{-128, -100, -1, 0, 1, 100, 127}; }
 template <> inline std::vector<long> vals<u8>(bool reduced) { return reduced ? std::vector<long>{0, 1, 200, 255} : std::vector<long>{0, 1, 2, 100, 200, 255}; }
 template <> inline std::vector<long> vals<i16>(bool reduced) { return reduced ? std::vector<long>{-32768, -1, 0, 32767} : std::vector<long>{-32768, -20000, -1, 0, 1, 20000, 32767}; }
+template <> inline std::vector<long> vals<u16>(bool reduced) { return reduced ? std::vector<long>{0, 5, 65535} : std::vector<long>{0, 1, 5, 40000, 65535}; }
 template <> inline std::vector<long> vals<int>(bool reduced) { return reduced ? std::vector<long>{-100000, -1, 0, 70000} : std::vector<long>{-100000, -3, 0, 1, 70000}; }
 template <> inline std::vector<long> vals<long>(bool reduced) { return reduced ? std::vector<long>{-3000000000L, -1, 0, 3000000000L} : std::vector<long>{-3000000000L, -1, 0, 2, 3000000000L}; }
 
@@ -322,6 +325,7 @@ template <class RT, sz Rr, sz K, sz C> bool exact_product(rmat<Rr, K> const &a, 
 // ------------------------------------------------------------------ matrix * matrix
 template <class L, class R, sz Rr, sz K, sz C> void matrix_products(std::vector<long> const &lv, std::vector<long> const &rv)
 {
+  static_assert(tall_left_ok(Rr, K), "tall-left products belong to the binary C14b");
   static std::string const fn = tag<L, R>("matrix_product", shape(Rr, K) + "." + shape(K, C));
   static std::string const sg = sigbase<L, R>("matrix_product");
   using LM = fm::static_<L, Rr, K>;
@@ -397,7 +401,8 @@ template <class L, class R, sz Rr, sz C> void matrix_vector(std::vector<long> co
       C14_EQ(rdv(va * bx[xi].vec()), want, sg + ":wrong:view", "A*x (view storages)");
       C14_EQ(rdv(sa * bx[xi].vec()), want, sg + ":wrong:view", "A*x (static, view)");
       // the same product as matrix * (Cx1 matrix)
-      C14_EQ(rd(sa * mk_anym<fm::static_<R, C, 1>>(col)).d, want, sg + ":law:column_matrix", "A*x vs A*(Cx1 matrix)");
+      if constexpr (tall_left_ok(Rr, C))
+        C14_EQ(rd(sa * mk_anym<fm::static_<R, C, 1>>(col)).d, want, sg + ":law:column_matrix", "A*x vs A*(Cx1 matrix)");
     }
   }
 }
@@ -410,7 +415,6 @@ template <class L, class R> void type_pair_small()
   componentwise<2, L, R, 2>(vals<L>(red), vals<R>(red));
   matrix_sums<L, R, 2, 2>(vals<L>(red), vals<R>(red));
   matrix_products<L, R, 1, 2, 1>(vals<L>(), vals<R>());
-  matrix_products<L, R, 2, 1, 2>(vals<L>(), vals<R>());
   matrix_products<L, R, 2, 2, 2>(vals<L>(red), vals<R>(red));
 }
 }
